@@ -164,6 +164,16 @@ impl ChunkStateMmapper {
     fn get_state(&self, chunk: Address) -> MapState {
         self.storage.get_state(chunk)
     }
+
+    /// The recorded state of a chunk: 0 = Unmapped, 1 = Quarantined, 2 = Mapped.
+    #[cfg(feature = "mmtk_verif")]
+    pub fn verif_get_state(&self, chunk: Address) -> u8 {
+        match self.storage.get_state(chunk) {
+            MapState::Unmapped => 0,
+            MapState::Quarantined => 1,
+            MapState::Mapped => 2,
+        }
+    }
 }
 
 impl Mmapper for ChunkStateMmapper {
